@@ -633,7 +633,19 @@ def _run(args: argparse.Namespace) -> int:
         run_space_override = True
 
     if args.run_space_max_runs is not None or args.run_space_dry_run:
-        run_space_section = config.setdefault("run_space", {})
+        # Patch the block the loader reads: the top-level one, else the one under
+        # ``pipeline:``.  An empty top-level block created here would hide the
+        # nested run space from the loader and the launch would run without it.
+        run_space_section = config.get("run_space")
+        if run_space_section is None:
+            pipeline_section = config.get("pipeline")
+            if (
+                isinstance(pipeline_section, dict)
+                and pipeline_section.get("run_space") is not None
+            ):
+                run_space_section = pipeline_section["run_space"]
+            else:
+                run_space_section = config["run_space"] = {}
         if not isinstance(run_space_section, dict):
             print("Invalid config: run_space block must be a mapping", file=sys.stderr)
             return EXIT_CONFIG_ERROR
